@@ -24,7 +24,7 @@ GENF = re.compile(r"^  Generation (\d+) \((.*?)\) (\w+): (\S+) \((\w+)\)\s*$")
 
 
 def budget(tier):
-    return {"cases": 1100, "seconds": 55} if tier == "quick" else {"cases": 40000, "seconds": 600}
+    return {"cases": 900, "seconds": 55} if tier == "quick" else {"cases": 40000, "seconds": 600}
 
 
 def run_case(cs):
@@ -164,6 +164,26 @@ def run_case(cs):
                 {"kind": "info-sf-lines", "fewer": len(got) < len(want), "more": len(got) > len(want), "same_multiset": sorted(got) == sorted(want), "nested": h != "."},
                 {**c2, "got": got[:5], "want": want[:5]},
             )
+    # ---------- verbose per-file listing: same generation lines (plus details), no internal error
+    if files and rng.random() < 0.3:
+        f = rng.choice(files)
+        h = world.owner(f, hists)
+        r = drive.run("info", ["-v", "-sf", os.path.join(root, f)])
+        cs.evaluated()
+        cs.count("info_sf_verbose_judged")
+        if r.internal or r.exit != 0:
+            cs.violation(classify.internal_key(r) if r.internal else "info-sf-nonzero", {"kind": "info-sf-exit", "exit": r.exit, "nested": h != ".", "verbose": True}, {**ctx, **r.brief()})
+        else:
+            rel = world.rel_to(f, h)
+            want = []
+            for no, name, m in model[h]:
+                for rec in m["hashes"]:
+                    if rec["kind"] == "file" and rec["path"] == rel:
+                        for fm, dg, a, _hd in rec["entries"]:
+                            want.append(f"  Generation {no} ({m['creatorinfo']['creationdate']}) {fm}: {dg} ({a})")
+            missing = [w for w in want if not any(l.rstrip().startswith(w) for l in r.out.split("\n"))]
+            if missing:
+                cs.violation("info-sf-lines-differ", {"kind": "info-sf-lines", "fewer": True, "more": False, "verbose": True, "nested": h != "."}, {**ctx, "file": f, "missing": missing[:3]})
     # ---------- big histories: every recorded file of the root history in ONE info invocation (-sf may be repeated)
     if len(files) >= 60:
         mine = [f for f in files if world.owner(f, hists) == "."]
